@@ -40,6 +40,9 @@ impl Session {
     /// Set the text to be executed.
     pub fn set_text(&mut self, text: String) {
         self.text = text;
+
+        /* Every line of the new text must be executed */
+        self.position.set(0);
         
         self.text_parts = match Regex::new(r"\r\n|\n") {
             Ok(re) => re.split(&self.text).map(|item| item.to_string()).collect::<Vec<_>>(),
